@@ -50,7 +50,7 @@ ANCHORS = ['pfhedge.instruments.derivative.base:BaseDerivative.simulate',
            'pfhedge.instruments.primary.local_volatility:LocalVolatilityStock.simulate']
 PYTEST_WORKLOAD = True  # thorough tier also runs /repo/tests with these passive monitors attached (DESIGN.md 2.7)
 DECIDING = ["grid.n_points", "grid.derivative_simulate", "ttm.values"]
-REQUIRED_BRANCHES = ["maturity_zero", "derivative.two_underliers", "resimulated_other_maturity", "ratio.integer", "ratio.non_integer", "ttm.negative_index"]
+REQUIRED_BRANCHES = ["maturity.product_rounds_below", "maturity_zero", "derivative.two_underliers", "resimulated_other_maturity", "ratio.integer", "ratio.non_integer", "ttm.negative_index"]
 
 _CTX = None
 PRIMS = ["brownian", "heston", "cir", "vasicek", "merton", "kou", "rbergomi", "localvol"]
@@ -194,6 +194,12 @@ def drv_sweep(ctx, k, rng):
         kinds = [pick(rng, ["brownian", "merton", "kou", "vasicek"]), pick(rng, PRIMS)]
     else:
         kinds = PRIMS
+    if k % 12 == 3:
+        # maturities of exactly k steps (written k/n) whose product k * dt rounds one ulp below them: every primary
+        n_, kk = pick(rng, [(12, 7), (12, 31), (252, 33), (252, 37), (252, 41), (252, 57), (252, 74)])
+        dt, n, M, way = 1 / n_, n_, kk / n_, "k/n (k*dt rounds below)"
+        kinds = PRIMS if kk <= 60 else [x for x in PRIMS if x not in ("heston", "cir", "localvol")] + ["cir"]
+        ctx.branch("maturity.product_rounds_below")
     if k % 12 == 7:
         # a contract observed at its maturity date (maturity 0): the grid is the single point t = 0
         kk, M, way = 0, 0.0, "zero"
